@@ -44,6 +44,8 @@ def scenario(args):
             ev.append(lp.txread())
         elif c["api"] == "queue":
             ev.append(lp.queue_only(c["n"]))
+        elif c["api"] == "rxturn":
+            ev.append(lp.rxturn(c["n"]))
         elif c["api"] == "resend":
             ev.append(lp.call("resend", send_only=c.get("send_only", False), fates=c.get("fates")))
         elif c["api"] == "sendlist":
@@ -131,6 +133,12 @@ def build_jobs(chk, tx_lite=False, rx_lite=False):
         for fr in (0, 1):
             for pat in ("D", "PP"):
                 add(dict(arc=1, ard=250), [dict(api="queue", n=3), dict(api="send", fr=fr, fates=list(pat)), dict(api="send", fr=0, fates=["D"])])
+    # the transmitter took a turn as receiver and left ACK payloads nobody fetched: they never leak into the next send()
+    if not tx_lite:
+        for nda in (False, True):
+            for n_left in (1, 2, 3):
+                for nxt in (dict(api="send", fr=0, fates=["D"]), dict(api="send", fr=1, fates=list("PPD")), dict(api="send", fr=0, fates=list("PP"))):
+                    add(dict(arc=1, ard=250, ackpl=True, no_dyn_ack=nda), [dict(api="rxturn", n=n_left), nxt, dict(api="send", fr=0, fates=["D"])])
     # (c) seeded large setups
     for _ in range(60 if quick else 1500):
         arc = rng.randrange(16)
